@@ -17,50 +17,73 @@ None == "none"
 Def(s) == "addr-" \o s            \* default id: the connection's remote address (unique per connection)
 Ids == U \cup {Def(s) : s \in S}
 
-VARIABLES hub, sid, st, n, hist
-vars == <<hub, sid, st, n, hist>>
-view == <<hub, sid, st, n>>
+VARIABLES hub, sid, st, n, hist,
+          busy,    \* a handler of the session is running (entered, not yet returned)
+          pend     \* SetID blocked in hub.set -> old.Close(): the id still to delete when it returns
+vars == <<hub, sid, st, n, hist, busy, pend>>
+view == <<hub, sid, st, n, busy, pend>>
 
 Init == /\ hub = [i \in Ids |-> None] /\ sid = [s \in S |-> Def(s)]
         /\ st = [s \in S |-> "new"] /\ n = 0 /\ hist = <<>>
+        /\ busy = [s \in S |-> FALSE] /\ pend = [s \in S |-> None]
 
 \* index part of closeLocked / readDisconnected of session t whose current id is id
 Del(h, t, id) == IF ~GuardedDelete \/ h[id] = t THEN [h EXCEPT ![id] = None] ELSE h
 
-\* SessionHub.set(s) where s's current id is id: <<hub', st'>>
+\* Close()/readDisconnected of a session with a running handler block in the handler wait:
+\* the session is "closing" (index entry already removed) until the handler returns.
+EndState(t) == IF busy[t] THEN "closing" ELSE "closed"
+
+\* SessionHub.set(s) where s's current id is id: <<hub', st', blocked?>>
 SetIn(h, stt, s, id) ==
-  IF h[id] = None \/ h[id] = s THEN <<[h EXCEPT ![id] = s], stt>>
+  IF h[id] = None \/ h[id] = s THEN <<[h EXCEPT ![id] = s], stt, FALSE>>
   ELSE LET old == h[id]
            h1  == [h EXCEPT ![id] = s]
        IN  IF stt[old] = "live"
-             THEN <<Del(h1, old, id), [stt EXCEPT ![old] = "closed"]>>   \* old.Close(): delete(old.ID())
-             ELSE <<h1, stt>>
+             THEN <<Del(h1, old, id), [stt EXCEPT ![old] = EndState(old)], busy[old]>>   \* old.Close(): delete(old.ID())
+             ELSE <<h1, stt, FALSE>>
 
 Index(h) == {<<i, h[i]>> : i \in {j \in Ids : h[j] # None}}
+Quiet(stt, pnd) == (\A t \in S : stt[t] # "closing") /\ (\A t \in S : pnd[t] = None)
 Rec(op, s, u) == /\ n < MaxOps /\ n' = n + 1
-                 /\ hist' = Append(hist, [op |-> op, s |-> s, u |-> u,
+                 /\ hist' = Append(hist, [op |-> op, s |-> s, u |-> u, quiet |-> Quiet(st', pend'),
                                          index |-> Index(hub'), live |-> {t \in S : st'[t] = "live"}])
 
 Accept(s) == /\ st[s] = "new"
              /\ LET r == SetIn(hub, [st EXCEPT ![s] = "live"], s, sid[s]) IN hub' = r[1] /\ st' = r[2]
-             /\ UNCHANGED sid /\ Rec("accept", s, "")
-SetID(s, u) == /\ st[s] = "live" /\ sid[s] # u
+             /\ UNCHANGED <<sid, busy, pend>> /\ Rec("accept", s, "")
+SetID(s, u) == /\ st[s] = "live" /\ sid[s] # u /\ pend[s] = None
                /\ LET old == sid[s]
                       r   == SetIn(hub, st, s, u)
-                  IN  hub' = [r[1] EXCEPT ![old] = None] /\ st' = r[2]       \* hub.set(s); hub.delete(oldID)
-               /\ sid' = [sid EXCEPT ![s] = u] /\ Rec("setid", s, u)
-Close(s) == /\ st[s] = "live"
-            /\ hub' = Del(hub, s, sid[s]) /\ st' = [st EXCEPT ![s] = "closed"] /\ UNCHANGED sid /\ Rec("close", s, "")
-Disc(s) ==  /\ st[s] = "live"
-            /\ hub' = Del(hub, s, sid[s]) /\ st' = [st EXCEPT ![s] = "closed"] /\ UNCHANGED sid /\ Rec("disc", s, "")
+                  IN  /\ st' = r[2]
+                      /\ IF r[3]   \* blocked in old.Close() until the old session's handler returns
+                           THEN (hub' = r[1] /\ pend' = [pend EXCEPT ![s] = old])
+                           ELSE (hub' = [r[1] EXCEPT ![old] = None] /\ pend' = pend)     \* hub.set(s); hub.delete(oldID)
+               /\ sid' = [sid EXCEPT ![s] = u] /\ UNCHANGED busy /\ Rec("setid", s, u)
+Close(s) == /\ st[s] = "live" /\ pend[s] = None
+            /\ hub' = Del(hub, s, sid[s]) /\ st' = [st EXCEPT ![s] = EndState(s)] /\ UNCHANGED <<sid, busy, pend>> /\ Rec("close", s, "")
+Disc(s) ==  /\ st[s] \in {"live", "closing"}
+            /\ hub' = Del(hub, s, sid[s])        \* readDisconnected: removes the entry (if it is still this session)
+            /\ st' = [st EXCEPT ![s] = IF st[s] = "live" THEN EndState(s) ELSE "closing"]
+            /\ UNCHANGED <<sid, busy, pend>> /\ Rec("disc", s, "")
+StartH(s) == /\ st[s] = "live" /\ ~busy[s] /\ pend[s] = None
+             /\ busy' = [busy EXCEPT ![s] = TRUE] /\ UNCHANGED <<hub, sid, st, pend>> /\ Rec("starth", s, "")
+EndH(s) ==  /\ busy[s]
+            /\ busy' = [busy EXCEPT ![s] = FALSE]
+            /\ st' = [st EXCEPT ![s] = IF st[s] = "closing" THEN "closed" ELSE st[s]]
+               \* a SetID that was blocked on this session's Close() now finishes: hub.delete(oldID)
+            /\ LET w == {t \in S : pend[t] # None /\ st[s] = "closing" /\ sid[t] = sid[s]} IN
+               /\ hub' = [i \in Ids |-> IF \E t \in w : pend[t] = i THEN None ELSE hub[i]]
+               /\ pend' = [t \in S |-> IF t \in w THEN None ELSE pend[t]]
+            /\ UNCHANGED sid /\ Rec("endh", s, "")
 
-Next == \E s \in S : Accept(s) \/ Close(s) \/ Disc(s) \/ \E u \in U : SetID(s, u)
+Next == \E s \in S : Accept(s) \/ Close(s) \/ Disc(s) \/ StartH(s) \/ EndH(s) \/ \E u \in U : SetID(s, u)
 Spec == Init /\ [][Next]_vars
 
 \* C07: the index contains exactly the live sessions, each under its current id
-IndexExact == \A i \in Ids : \A s \in S : (hub[i] = s) <=> (st[s] = "live" /\ sid[s] = i)
+IndexExact == Quiet(st, pend) => \A i \in Ids : \A s \in S : (hub[i] = s) <=> (st[s] = "live" /\ sid[s] = i)
 \* a session that was closed is never live again
-ClosedStays == [][\A s \in S : st[s] = "closed" => st'[s] = "closed"]_vars
+ClosedStays == [][\A s \in S : st[s] \in {"closed", "closing"} => st'[s] \in {"closed", "closing"}]_vars
 
 \* scenario export: one JSON line per explored transition (history hidden by the VIEW)
 Emit == Export = "" \/
